@@ -69,6 +69,7 @@ typedef struct {
         RLE_RUN,  /* buffer up to the current position is a run */
         RLE_MIX   /* buffer up to the current position is a mix */
     } rle_state;  /* state of the buffer storage */
+    int unwritten; /* the state describes encoded bytes which are not in the file yet */
 } comp_coder_rle_info_t;
 
 #ifdef __cplusplus
